@@ -92,3 +92,13 @@ for _dst in ("face", "edge"):
                            f"result.dims == {tuple(_dims[:-1]) + ('n_' + _dst,)!r}"] if _ok else []),
                  options={"abstract": True, "summaries": [_AG + f"_apply_node_to_{_dst}_aggregation_numpy"]},
                  raises=[("ValueError", str(not _ok), "iff")])
+
+
+# get_face_node_partitions, dataflow / frame view (C02, C17): everything it returns is computed from the face sizes it is handed, and the
+# array it is handed (the grid's own n_nodes_per_face) is only read
+contract("uxarray.grid.connectivity.get_face_node_partitions", props=["C02", "C17"], variant="frame",
+         params={"n_nodes_per_face": "opaque"}, returns="opaque",
+         ensures=["is_tuple(result)",
+                  "same(item(result, 1), lib('numpy.argsort', n_nodes_per_face))"],
+         options={"abstract": True, "frames": True},
+         raises=[("Exception", "False", "only_if")])
